@@ -1,2 +1,265 @@
-//! Thread token scheduler: real threads, one at a time.  (filled in with the
-//! storage-level harnesses)
+//! Thread token scheduler: real threads, one at a time.
+//!
+//! `N` harness threads are registered; exactly one holds the token.  At a
+//! `point(site)` the running thread parks and the seeded stream chooses what
+//! happens next: another parked thread continues, or an *extra action*
+//! (for instance one step of the write-behind pipeline) is performed by the
+//! token holder.  Code between two points is atomic with respect to the other
+//! registered threads, so an execution is a function of the decision list.
+
+use std::{
+    cell::Cell,
+    collections::BTreeMap,
+    sync::{Arc, Condvar, Mutex},
+};
+
+use crate::{Rng, fnv_step, label};
+
+#[derive(Clone, Debug, PartialEq, Eq)]
+enum St {
+    NotStarted,
+    Parked,
+    Running,
+    Finished,
+}
+
+/// Extra actions the scheduler may interleave with the threads.
+pub trait Extras: Send + Sync {
+    /// labels of the actions that are possible right now (stable order)
+    fn available(&self) -> Vec<String>;
+    /// perform the action with this label (called by the token holder)
+    fn perform(&self, label: &str);
+}
+
+struct TS {
+    rng: Rng,
+    state: Vec<St>,
+    current: Option<usize>,
+    /// recorded choices (labels), for the trace / replay file
+    pub choices: Vec<String>,
+    replay: Option<Vec<String>>,
+    replay_pos: usize,
+    trace_hash: u64,
+    events: u64,
+    hits: BTreeMap<&'static str, u64>,
+    switches: u64,
+    extra_steps: u64,
+    /// probability (num/den) of staying on the current thread at a point
+    stay_num: u64,
+    stay_den: u64,
+    panicked: Option<String>,
+}
+
+pub struct Sched {
+    m: Mutex<TS>,
+    cv: Condvar,
+    extras: Option<Arc<dyn Extras>>,
+    on_point: Option<Arc<dyn Fn(&'static str) + Send + Sync>>,
+}
+
+thread_local! {
+    static ME: Cell<Option<usize>> = const { Cell::new(None) };
+}
+
+static ACTIVE: Mutex<Option<Arc<Sched>>> = Mutex::new(None);
+
+pub struct Report {
+    pub choices: Vec<String>,
+    pub trace_hash: u64,
+    pub events: u64,
+    pub hits: BTreeMap<&'static str, u64>,
+    pub switches: u64,
+    pub extra_steps: u64,
+    pub panicked: Option<String>,
+    pub replay_diverged: bool,
+}
+
+pub struct Config {
+    pub seed: u64,
+    pub stay: (u64, u64),
+    pub replay: Option<Vec<String>>,
+    pub extras: Option<Arc<dyn Extras>>,
+    pub on_point: Option<Arc<dyn Fn(&'static str) + Send + Sync>>,
+}
+
+impl Sched {
+    /// choose the next option; must be called with the lock held by the
+    /// token holder.  Returns the label.
+    fn choose(&self, g: &mut TS, me: Option<usize>) -> Option<String> {
+        let mut opts: Vec<String> = Vec::new();
+        for (i, s) in g.state.iter().enumerate() {
+            if *s == St::Parked || (*s == St::NotStarted) {
+                opts.push(format!("T{i}"));
+            }
+        }
+        if let Some(x) = &self.extras {
+            opts.extend(x.available().into_iter().map(|l| format!("X:{l}")));
+        }
+        if opts.is_empty() {
+            return None;
+        }
+        let pick = if let Some(r) = &g.replay {
+            let want = r.get(g.replay_pos).cloned();
+            g.replay_pos += 1;
+            match want {
+                Some(w) if opts.contains(&w) => w,
+                _ => opts[0].clone(),
+            }
+        } else {
+            let me_label = me.map(|m| format!("T{m}"));
+            if let Some(ml) = &me_label
+                && opts.contains(ml)
+                && g.rng.chance(g.stay_num, g.stay_den)
+            {
+                ml.clone()
+            } else {
+                let i = g.rng.usize(opts.len());
+                opts[i].clone()
+            }
+        };
+        g.choices.push(pick.clone());
+        g.trace_hash = fnv_step(g.trace_hash, label(&pick));
+        Some(pick)
+    }
+
+    /// hand the token on according to the seeded stream; `me` parks (if it
+    /// is still alive) until it is chosen again.
+    fn reschedule(&self, me: Option<usize>, alive: bool) {
+        let mut g = self.m.lock().unwrap();
+        if let Some(m) = me {
+            g.state[m] = if alive { St::Parked } else { St::Finished };
+        }
+        loop {
+            let Some(pick) = self.choose(&mut g, if alive { me } else { None }) else {
+                // nothing left to run
+                g.current = None;
+                self.cv.notify_all();
+                return;
+            };
+            if let Some(l) = pick.strip_prefix("X:") {
+                g.extra_steps += 1;
+                let x = self.extras.clone().unwrap();
+                let l = l.to_string();
+                drop(g);
+                x.perform(&l);
+                g = self.m.lock().unwrap();
+                continue;
+            }
+            let t: usize = pick[1..].parse().unwrap();
+            if Some(t) != me {
+                g.switches += 1;
+            }
+            g.current = Some(t);
+            g.state[t] = St::Running;
+            self.cv.notify_all();
+            if Some(t) == me {
+                return;
+            }
+            if !alive {
+                return;
+            }
+            // wait until chosen again
+            let m = me.unwrap();
+            while g.current != Some(m) {
+                g = self.cv.wait(g).unwrap();
+            }
+            return;
+        }
+    }
+}
+
+/// A scheduling point of the calling thread.  No-op on threads that are not
+/// registered with the active scheduler.
+pub fn point(site: &'static str) {
+    let Some(me) = ME.with(Cell::get) else { return };
+    let Some(s) = ACTIVE.lock().unwrap().clone() else { return };
+    {
+        let mut g = s.m.lock().unwrap();
+        g.events += 1;
+        *g.hits.entry(site).or_insert(0) += 1;
+        g.trace_hash = fnv_step(g.trace_hash, label(site));
+    }
+    if let Some(f) = &s.on_point {
+        f(site);
+    }
+    s.reschedule(Some(me), true);
+}
+
+pub fn is_registered() -> bool { ME.with(Cell::get).is_some() }
+
+/// Run `bodies` as token-scheduled threads to completion.
+pub fn run(cfg: Config, bodies: Vec<Box<dyn FnOnce() + Send>>) -> Report {
+    let n = bodies.len();
+    let replaying = cfg.replay.is_some();
+    let s = Arc::new(Sched {
+        m: Mutex::new(TS {
+            rng: Rng::new(cfg.seed).split(label("token-schedule")),
+            state: vec![St::NotStarted; n],
+            current: None,
+            choices: Vec::new(),
+            replay: cfg.replay,
+            replay_pos: 0,
+            trace_hash: 0xcbf2_9ce4_8422_2325,
+            events: 0,
+            hits: BTreeMap::new(),
+            switches: 0,
+            extra_steps: 0,
+            stay_num: cfg.stay.0,
+            stay_den: cfg.stay.1.max(1),
+            panicked: None,
+        }),
+        cv: Condvar::new(),
+        extras: cfg.extras,
+        on_point: cfg.on_point,
+    });
+    *ACTIVE.lock().unwrap() = Some(s.clone());
+    let mut handles = Vec::new();
+    for (i, body) in bodies.into_iter().enumerate() {
+        let s2 = s.clone();
+        handles.push(
+            std::thread::Builder::new()
+                .name(format!("sim-T{i}"))
+                .spawn(move || {
+                    ME.with(|m| m.set(Some(i)));
+                    {
+                        let mut g = s2.m.lock().unwrap();
+                        while g.current != Some(i) {
+                            g = s2.cv.wait(g).unwrap();
+                        }
+                    }
+                    let r = std::panic::catch_unwind(std::panic::AssertUnwindSafe(body));
+                    if let Err(p) = r {
+                        let msg = p
+                            .downcast_ref::<&str>()
+                            .map(|s| (*s).to_string())
+                            .or_else(|| p.downcast_ref::<String>().cloned())
+                            .unwrap_or_else(|| "<non-string payload>".into());
+                        let mut g = s2.m.lock().unwrap();
+                        if g.panicked.is_none() {
+                            g.panicked = Some(format!("thread T{i}: {msg}"));
+                        }
+                    }
+                    s2.reschedule(Some(i), false);
+                    ME.with(|m| m.set(None));
+                })
+                .unwrap(),
+        );
+    }
+    // start: the main thread makes the first decision
+    s.reschedule(None, false);
+    for h in handles {
+        let _ = h.join();
+    }
+    *ACTIVE.lock().unwrap() = None;
+    let g = s.m.lock().unwrap();
+    Report {
+        choices: g.choices.clone(),
+        trace_hash: g.trace_hash,
+        events: g.events,
+        hits: g.hits.clone(),
+        switches: g.switches,
+        extra_steps: g.extra_steps,
+        panicked: g.panicked.clone(),
+        replay_diverged: replaying && g.replay_pos > g.replay.as_ref().map_or(0, Vec::len),
+    }
+}
